@@ -95,8 +95,9 @@ def gen_decl(rng, names: Names, depth: int, parent_ns, opts) -> dict:
     if shape < 0.58:  # simple content with attributes
         if not attrs:
             attrs.append({"name": names.fresh("a"), "ns": None, "kind": "string", "style": 0, "required": True})
+        nil = rng.random() < opts.get("nil_complex", 0.0)
         return {"name": name, "ns": ns, "shape": "simple", "kind": rng.choice(KINDS), "style": style, "attrs": attrs,
-                "nillable": rng.random() < opts.get("nil_complex", 0.0)}
+                "nillable": nil, "always_nil": nil and rng.random() < 0.35}
     if shape < 0.66 and opts.get("mixed", True):
         inl = [gen_decl(rng, names, 99, ns, opts) for _ in range(rng.randint(1, 2))]
         for d in inl:
@@ -126,8 +127,9 @@ def gen_decl(rng, names: Names, depth: int, parent_ns, opts) -> dict:
             mx = rng.choice([1, 1, 1, 3])
             parts.append({"t": "el", "decl": d, "min": mn, "max": mx})
     # an element with attributes / children that may also be xsi:nil (it keeps its attributes then)
+    nil = depth > 0 and rng.random() < opts.get("nil_complex", 0.0)
     return {"name": name, "ns": ns, "shape": "complex", "attrs": attrs, "parts": parts,
-            "nillable": depth > 0 and rng.random() < opts.get("nil_complex", 0.0)}
+            "nillable": nil, "always_nil": nil and bool(attrs) and rng.random() < 0.35}
 
 
 def gen_xml_model(rng, **opts) -> dict:
@@ -151,8 +153,11 @@ def instance(rng, d: dict, rep_min: int = 1) -> dict:
     for a in d.get("attrs", []):
         if a["required"] or rng.random() < 0.5:
             el["a"].append([qn(a["ns"], a["name"]), canonical_value(rng, a["kind"], a["style"])])
-    if d["shape"] in ("simple", "complex") and d.get("nillable") and rng.random() < 0.35:
-        el["a"].append([qn(XSI, "nil"), "true"])
+    if d["shape"] in ("simple", "complex") and d.get("nillable") and (d.get("always_nil") or rng.random() < 0.35):
+        # xsi:nil stands anywhere among the ordinary attributes (first, in the middle, last): the attributes written
+        # after it belong to the element like the ones before it; an `always_nil` element has no other occurrence
+        # that could supply them
+        el["a"].insert(rng.randint(0, len(el["a"])), [qn(XSI, "nil"), "true"])
         return el
     if d["shape"] == "leaf":
         if d["nillable"] and rng.random() < 0.4:
